@@ -48,6 +48,11 @@ pub fn pat_byte(seed: u64, i: u64) -> u8 {
     ((z ^ (z >> 13)) & 0xff) as u8
 }
 
+/// Period of the byte stream of the huge-message ops (`bigupd`, `stream`): a PRIME just below 2^20, so that the data
+/// does not repeat with a period dividing 2^32 (or any power of two) — code whose offsets wrap modulo 2^32 would read
+/// identical bytes from a 1 MiB-periodic message and stay invisible (seeded change R6-C06).
+pub const BIG_PERIOD: usize = (1 << 20) - 3;
+
 pub fn pat_bytes(seed: u64, n: usize) -> Vec<u8> {
     (0..n as u64).map(|i| pat_byte(seed, i)).collect()
 }
